@@ -194,7 +194,8 @@ pub enum Ev {
     /// a read with an empty frame stack: the crate re-loading `Leaf id` by itself
     SelfRead { tag: u32, id: String, ext: String, tid: u32, seq: u64 },
     /// any source access
-    Read { tag: u32, entry: OwnedEntry, tid: u32, to: Option<AKey>, seq: u64 },
+    /// `in_load`: some harness frame is on the stack (the access is part of a load the harness can see)
+    Read { tag: u32, entry: OwnedEntry, tid: u32, to: Option<AKey>, seq: u64, in_load: bool },
     LoaderInvoked { tid: u32, seq: u64 },
     Violation(String),
 }
@@ -307,7 +308,7 @@ fn on_source_access(tag: u32, entry: &OwnedEntry) {
         }
     });
     with_shadow(|s| {
-        s.events.push(Ev::Read { tag, entry: entry.clone(), tid, to: to.clone(), seq: next_seq() });
+        s.events.push(Ev::Read { tag, entry: entry.clone(), tid, to: to.clone(), seq: next_seq(), in_load: !self_read });
         if self_read {
             if let OwnedEntry::File(id, ext) = entry {
                 if ext == "la" || ext == "lb" {
@@ -366,12 +367,30 @@ fn pop_frame(ok: bool, tree: Option<&Tree>) {
         if (key.0 == Kind::Leaf || key.0 == Kind::LeafS || analytic) && reads == 0 {
             return;
         }
+        let mut nested: Vec<(AKey, BTreeSet<Dep>)> = Vec::new();
         if analytic {
             if let Some(tree) = tree {
                 deps = analytic_deps(&key, tree);
+                if key.0 == Kind::Rec && ok && reloadable {
+                    // the crate loads the directory itself and every sub-directory as nested assets
+                    let mut stack = vec![key.1.clone()];
+                    while let Some(d) = stack.pop() {
+                        nested.push(((Kind::Dir, d.clone()), analytic_deps(&(Kind::Dir, d.clone()), tree)));
+                        if d != key.1 {
+                            nested.push(((Kind::Rec, d.clone()), analytic_deps(&(Kind::Rec, d.clone()), tree)));
+                        }
+                        for sub in tree.dirs.iter().filter(|s| memsrc::parent_of(s) == Some(d.as_str())) {
+                            stack.push(sub.clone());
+                        }
+                    }
+                }
             }
         }
         with_shadow(|s| {
+            for (k, d) in nested {
+                s.deps.entry((cache, k.clone())).or_insert(d);
+                s.tolerated.entry((cache, k)).or_insert(false);
+            }
             s.events.push(Ev::Loaded { tag: cache, key: key.clone(), tid, ok, seq: next_seq(), depth });
             if !reloadable {
                 return;
@@ -1124,6 +1143,23 @@ impl World {
                     s.tolerated.insert(key, false);
                 } else {
                     s.failed_extra.entry(key).or_default().extend(deps);
+                }
+            }
+        });
+    }
+
+    /// Directory assets are loaded and re-loaded by the crate without the harness seeing it (nested in a
+    /// recursive directory, or on the reloader thread): give every cached one its documented dependencies,
+    /// and refresh those of the ones that were just re-loaded.
+    pub fn sync_analytic(&self, cached: &BTreeSet<AKey>, reloaded: &BTreeSet<AKey>) {
+        let tree = self.src.tree().clone();
+        let tag = self.tag;
+        with_shadow(|s| {
+            for key in cached.iter().filter(|k| matches!(k.0, Kind::Dir | Kind::Rec)) {
+                let k = (tag, key.clone());
+                if !s.deps.contains_key(&k) || reloaded.contains(key) {
+                    s.deps.insert(k.clone(), analytic_deps(key, &tree));
+                    s.tolerated.entry(k).or_insert(false);
                 }
             }
         });
